@@ -592,6 +592,13 @@ Proof.
   cbn [fst]. apply keepalive_close_P. exact H1.
 Qed.
 
+Lemma loop_read_n_P : forall l s, P s -> P (fst (loop_read_n c nested l s)).
+Proof.
+  induction l as [|i r IH]; intros s HP; cbn [loop_read_n]; [exact HP|].
+  pose proof (loop_read_P i s HP) as H1.
+  destruct (read_continues c nested i s); [apply IH; exact H1|exact H1].
+Qed.
+
 Lemma ret_of_P r : P (fst r) -> P (ret_of r).
 Proof. destruct r as [s [rc|]]; cbn [fst ret_of]; intros HP; [apply P_emit; [reflexivity|]|]; exact HP. Qed.
 
@@ -610,6 +617,7 @@ Proof.
     destruct (loop_write c nested (emit (Call CLoopWrite) s)). apply P_emit; [reflexivity|exact H].
   - pose proof (loop_misc_P m _ (P_emit (Call CLoopMisc) s eq_refl HP)) as H.
     destruct (loop_misc c nested m (emit (Call CLoopMisc) s)). apply P_emit; [reflexivity|exact H].
+  - apply ret_of_P. apply loop_read_n_P. apply P_emit; [reflexivity|exact HP].
 Qed.
 
 End C16.
